@@ -880,4 +880,56 @@ theorem c02_shape_router_Router_receiveServerIdentity_b2 :
      "return:nil,xerrors.New(\"\")", "else", "if:!r.UnauthOk", "return:dst,nil"] := rfl
 
 
+
+/-! ### identity messages in the middle of an established connection -/
+
+/-- the protocol-message frames of a connection's stream -/
+def framesOf : List Item → List Frame
+  | [] => []
+  | .frame f :: l => f :: framesOf l
+  | .ident _ :: l => framesOf l
+
+/-- **a later self-description changes nothing**: whatever the peer sends on an established connection — frames and
+`ServerIdentity` messages describing any server, in any order —, the overlay gets exactly the frames, each stamped with
+the identity the connection was SET UP with. -/
+theorem c02_midconn_identity_ignored (remote : Nat) (items : List Item) :
+    handleStream remote items = (framesOf items).map (handleConn remote) := by
+  induction items with
+  | nil => rfl
+  | cons it l ih => cases it <;> simp [handleStream, framesOf, ih]
+
+/-- **the property's statement over such streams**: every element a handler or channel receives from the stream of a
+connection names a node of the instance's tree hosted by the server the connection was set up with — whatever
+identities the peer announced in between. -/
+theorem c02_midconn_sound (i : Inst) (remote : Nat) (items : List Item) :
+    ∀ d ∈ run i (fun _ => []) ((handleStream remote items).map process), ∀ x ∈ d,
+      x.1 ∈ i.nodes ∧ x.1.id = x.2.sender ∧ x.1.server = remote := by
+  intro d hd x hx
+  have hs := c02_sound i (fun _ => []) _ d hd x hx
+  refine ⟨hs.1, hs.2.1, ?_⟩
+  -- every wire of the run carries the set-up identity
+  have hall : ∀ w ∈ (handleStream remote items).map process, w.peer = some remote := by
+    intro w hw
+    rw [c02_midconn_identity_ignored] at hw
+    simp only [List.map_map, List.mem_map] at hw
+    obtain ⟨f, _, rfl⟩ := hw
+    rfl
+  rcases c02_provenance i (fun _ => []) _ d hd x hx with ⟨w, hw, hm⟩ | ⟨t, ht⟩
+  · simp only [msgOf, Option.map_eq_some_iff] at hm
+    obtain ⟨sn, _, hx2⟩ := hm
+    apply hs.2.2
+    rw [← hx2]
+    exact hall w hw
+  · simp at ht
+
+/-- **negation witness for the router that follows the peer's later self-descriptions** (seeded C02r7-A): member 2
+connects honestly, announces itself again as member 1, names member 1's node — the handler receives the message
+"from node 11", hosted by server 1, over a connection that was set up (on TLS: proved) as server 2. -/
+theorem c02_midconn_adopt_variant_spoofs :
+    let i : Inst := { nodes := [⟨10, 0⟩, ⟨11, 1⟩, ⟨12, 2⟩], parent := none, nChildren := 2, agg := fun _ => false }
+    let items : List Item := [.ident 1, .frame { ty := 3, sender := some 11, claimed := none, val := 7 }]
+    run i (fun _ => []) ((handleStreamAdopt 2 items).map process) = [[(⟨11, 1⟩, { ty := 3, sender := 11, peer := some 1, val := 7 })]] ∧
+    run i (fun _ => []) ((handleStream 2 items).map process) = [] := by
+  decide
+
 end C02
